@@ -177,6 +177,7 @@ pub fn run(env: &Env, run: &Run) -> (Stats, Coverage) {
             classify(&exp, &l, st, env, class);
         }
     }));
+    let long_all = run.tier == Tier::Thorough;
     // standard classes, every scalar value in five positions
     st.merge(cpsweep(|c, st| {
         let x = c as u32;
@@ -192,6 +193,23 @@ pub fn run(env: &Env, run: &Run) -> (Stats, Coverage) {
             let s = from_cps(&l);
             for class in [Class::Identifier, Class::Freeform] {
                 check_std(env, class, &l, &s, st);
+            }
+            // far apart / behind a long prefix (per-call memo tables that are only used for long
+            // labels): the aliases in planes 1, 2 and 16 (thorough: all), where the two are
+            // classified differently
+            let d = (a as u32) ^ x;
+            if (long_all || d == 0x10000 || d == 0x20000 || d == 0x100000) && x < a as u32 {
+                for class in [Class::Identifier, Class::Freeform] {
+                    if env.dpt.get(class, c) != env.dpt.get(class, a) {
+                        for (i, s) in long_pair_strings(c, a).into_iter().enumerate() {
+                            if i % 3 == 2 {
+                                continue;
+                            }
+                            let l: Vec<u32> = s.chars().map(|c| c as u32).collect();
+                            check_std(env, class, &l, &s, st);
+                        }
+                    }
+                }
             }
         }
     }));
